@@ -90,14 +90,17 @@ func (r *InboundRequestSingleFlight) GetOrCreate(ctx *Context, response *GraphQL
 
 	shard := r.shardFor(key)
 
-	request := &InflightRequest{
-		Done: make(chan struct{}),
-		ID:   key,
-	}
+	for {
+		request := &InflightRequest{
+			Done: make(chan struct{}),
+			ID:   key,
+		}
 
-	inflight, shared := shard.m.LoadOrStore(key, request)
-	verifPoint("sfi.loaded", key, verifBool(shared))
-	if shared {
+		inflight, shared := shard.m.LoadOrStore(key, request)
+		verifPoint("sfi.loaded", key, verifBool(shared))
+		if !shared {
+			return request, nil
+		}
 		request = inflight.(*InflightRequest)
 		request.AddFollower()
 		verifPoint("sfi.registered", key, 0)
@@ -107,14 +110,18 @@ func (r *InboundRequestSingleFlight) GetOrCreate(ctx *Context, response *GraphQL
 			if request.Err != nil {
 				return nil, request.Err
 			}
+			if request.Data == nil {
+				// The leader finished without publishing a result for us: we registered as a
+				// follower only after it had checked for followers. The entry is already
+				// removed, so start over instead of acting as a second leader of it.
+				continue
+			}
 			return request, nil
 		case <-ctx.ctx.Done():
 			verifPoint("sfi.woke", key, 1)
 			return nil, ctx.ctx.Err()
 		}
 	}
-
-	return request, nil
 }
 
 func (r *InboundRequestSingleFlight) FinishOk(req *InflightRequest, data []byte) {
